@@ -23,7 +23,7 @@ ANCHORS = ["dagrt.codegen.dag_ast:simplify_ast",
            "dagrt.codegen.dag_ast:ASTSimplifyMapper.map_Block",
            "dagrt.codegen.dag_ast:ASTSimplifyMapper.map_IfThenElse",
            "dagrt.codegen.dag_ast:ASTPostSimplifyMapper.map_IfThenElse"]
-MIN_NONTRIVIAL = {"quick": 5000, "thorough": 100000}
+MIN_NONTRIVIAL = {"quick": 5000, "thorough": 420000}
 SHARD_TIMEOUT = {"quick": 600, "thorough": 3000}
 
 CONDS = ["a", "b", ["!", "a"], ["!", ["!", "a"]], ["!", "b"], True, False]
@@ -38,7 +38,7 @@ def plan(tier, seed):
         shards.append({"kind": "exh", "k": k, "n": NSHARDS,
                        "bound": 3,
                        "bound_small": 3 if tier == "quick" else 4})
-    nrand = 1500 if tier == "quick" else 25000
+    nrand = 1500 if tier == "quick" else 150000
     for k in range(NSHARDS):
         shards.append({"kind": "rand", "seed": f"C06:{seed}:{k}", "count": nrand})
     return shards
